@@ -914,6 +914,15 @@ class Executor:
             for x in other.items:
                 self.seq_append(seq, x, node)
             return
+        if isinstance(other, Seq):
+            # extend by a sequence of symbolic length: in place (every holder of the list sees it), contents = old ++ other
+            if seq.concrete and not seq.items:
+                so = other.to_symbolic()
+                seq.items, seq.length, seq.arr = None, so.len(), so.arr
+                return
+            cat = self.seq_concat(seq, other, node)
+            seq.items, seq.length, seq.arr = None, cat.length, cat.arr
+            return
         raise OutOfSubset("extend with symbolic sequence", node)
 
     def seq_concat(self, a, b, node):
